@@ -36,7 +36,7 @@ func init() {
 		{
 			hr := TD.NewRun("close-abreast-hammer", nil)
 			hr.Key = "close-abreast-hammer"
-			subdecCloseHammer(hr, c.Pick(1500, 40000))
+			subdecCloseHammer(hr, c.Pick(1500, 40000), false)
 		}
 		subdecReplayAll(c, TD)
 		return gcDrive(c, gcScenariosC07(c))
